@@ -492,6 +492,7 @@ func checkC16(c *Ctx) {
 	c.checkCompactTypeTable("O7 type-codes")
 	c.checkPayloadWhole("O8 payload-whole")
 	c.checkReadTransportWrite("O8 read-transport")
+	c.checkDecodedPayloadOwned("O8 decoded-payload-owned")
 }
 
 // checkM3ClientSend: sendEmitMetricBatchV2 = WriteMessageBegin(name, ONEWAY, seq) -> args.Write ->
